@@ -20,7 +20,8 @@ type State struct {
 	ghost  map[string]Val
 	defers []deferred
 	old    *State
-	depth  int // inline depth
+	depth  int      // inline depth
+	taint  []string // callees without contract whose effects were havoc'd on this path
 }
 
 func newState() *State {
@@ -44,6 +45,7 @@ func (s *State) clone() *State {
 	}
 	n.pc = append([]string(nil), s.pc...)
 	n.defers = append([]deferred(nil), s.defers...)
+	n.taint = append([]string(nil), s.taint...)
 	return n
 }
 
